@@ -1,11 +1,19 @@
 /-
   C11 — Exact arithmetic: outcomes invariant under vote scaling, even beyond 2^53.
-  Property theorems only.  Every theorem is for ALL positive rational factors `k` (not only the integers of the
-  statement) and for all inputs of the respective model; the models compute over `Rat`, i.e. exactly.
+  Property theorems only.  Every theorem is for ALL inputs of the respective model and for ALL positive rational factors
+  `k` (not only the integers of the statement); the score family, whose ballot counts are Python ints, for all positive
+  natural factors.  The models compute over `Rat`, i.e. exactly.  Statement form: `eval (scale k input) = eval input`,
+  refusals included.
 
-  Families covered here: plurality / get_n_best (C09 model), QuotaSelector with the exact quotas, all
-  highest-averages divisor methods (C01 model).  Further families are added as their models arrive; the ones not yet
-  covered by a theorem are listed in the evidence (`unproved`) and are covered by the oracle on the implementation only.
+  Families (model owner): plurality / get_n_best, QuotaSelector (C09); divisor methods (C01); RelativeThreshold (C16);
+  QuotaDistributor, LargestRemainder with homogeneous quotas (C02); the converters as linear maps, positional rules and
+  approval voting as converter ∘ plurality (C13); every entry of condorcet.EVALUATORS, Condorcet winner / Smith / Schwartz,
+  Benham, Tideman alternative (C05/C06); PAV, SPAV, ScoreVoting, MajorityJudgment-plus, STAR (C12); Bucklin, one seat (C17);
+  STV-Gregory with a homogeneous quota (C03).  The compositions `PreConverted(converter, evaluator)` of the family table are
+  defined in VotelibModel/ScaleFamilies.lean.  Proof technique: a simulation relation `state₂ = k • state₁` preserved by
+  every step (Lemmas/Scale*.lean, Lemmas/HAScale.lean) + `getNBest` depends on the order of the values only (C09).
+  Not proved (listed in the evidence as `unproved`): Baldwin, Oklahoma, Bucklin / Tideman with several seats;
+  MajorityJudgment's default tie-break is scale dependent (open finding).
 -/
 import VotelibProofs.Props.C09
 import VotelibProofs.Lemmas.HAScale
